@@ -59,7 +59,7 @@
             assert!(r.is_err());
         }
         kani::cover!(id == lo);
-        kani::cover!($b == 6 && id == u64::MAX);
+        kani::cover!($b != 6 || id == u64::MAX);
         kani::cover!($b != 5 || id == base(32) - 1);
         kani::cover!($b == 6 || id + 1 == base(EDGES[$b + 1]));
     }
